@@ -243,6 +243,68 @@ async fn publisher_recovers(addr: SocketAddr, certs: &Certs, bo: BackoffStrategy
     Ok(delivered)
 }
 
+
+/// publisher with batching (+ compression) across outages: items in flight at a cut may be lost, but once the
+/// stream is back a steady flow of numbered items must reach the subscriber as a gap-free, ordered run
+async fn batched_publisher_recovers(addr: SocketAddr, certs: &Certs, bo: BackoffStrategy, outages: usize, id: u64) -> std::result::Result<u64, V> {
+    use selium::batching::BatchConfig;
+    let inc = |e: String| V("INCONCLUSIVE".into(), e);
+    let topic = format!("/c12bat/top{}", id);
+    let (comp, decomp) = super::c03::compression_pair(if id % 2 == 0 { "zstd" } else { "lz4" });
+    let cs = lib_client(&addr.to_string(), certs, None).await.map_err(|e| inc(e.to_string()))?;
+    let mut sub = cs.subscriber(&topic).with_decoder(StringCodec).with_decompression(decomp).open().await.map_err(|e| inc(e.to_string()))?;
+    let cp = lib_client(&addr.to_string(), certs, Some(bo)).await.map_err(|e| inc(e.to_string()))?;
+    let mut publ = cp
+        .publisher(&topic)
+        .with_encoder(StringCodec)
+        .with_compression(comp)
+        .with_batching(BatchConfig::new(4, Duration::from_millis(15)))
+        .open()
+        .await
+        .map_err(|e| inc(e.to_string()))?;
+    let mut n = 0u64;
+    let mut delivered = 0u64;
+    for o in 0..=outages {
+        if o > 0 {
+            cp.verif_close_connection().await;
+        }
+        // publish steadily; the subscriber must eventually see a gap-free ordered run of 24 items
+        let t0 = Instant::now();
+        let mut run: Vec<u64> = vec![];
+        let mut best = 0usize;
+        while best < 24 {
+            n += 1;
+            match tokio::time::timeout(Duration::from_secs(30), publ.send(format!("{}", n))).await {
+                Ok(Ok(())) => {}
+                Ok(Err(e)) => return Err(V(if is_too_many(&e) { "publisher/gave-up-although-server-reachable".into() } else { "publisher/error-after-cut".into() }, format!("batching publisher, outage #{}: send failed with {:?}", o, e.to_string()))),
+                Err(_) => return Err(V("publisher/hangs-after-cut".into(), format!("batching publisher, outage #{}: send() did not return within 30 s", o))),
+            }
+            tokio::time::sleep(Duration::from_millis(3)).await;
+            while let Ok(Some(r)) = tokio::time::timeout(Duration::from_millis(1), sub.next()).await {
+                match r {
+                    Ok(s) => {
+                        let v: u64 = s.parse().unwrap_or(0);
+                        if run.last().map_or(true, |l| v == l + 1) {
+                            run.push(v);
+                        } else if run.last().map_or(false, |l| v <= *l) {
+                            return Err(V("publisher/duplicate-or-reordered-after-recovery".into(), format!("batching publisher, outage #{}: subscriber saw {} after {}", o, v, run.last().unwrap())));
+                        } else {
+                            run = vec![v];
+                        }
+                        best = best.max(run.len());
+                        delivered += 1;
+                    }
+                    Err(e) => return Err(V("publisher/subscriber-error-after-recovery".into(), format!("batching publisher, outage #{}: subscriber yielded {:?}", o, e.to_string()))),
+                }
+            }
+            if t0.elapsed() > Duration::from_secs(40) {
+                return Err(V("publisher/lost-after-recovery".into(), format!("batching publisher, outage #{}: no gap-free run of 24 items within 40 s of steady publishing (best run {})", o, best)));
+            }
+        }
+    }
+    Ok(delivered)
+}
+
 async fn subscriber_recovers(addr: SocketAddr, certs: &Certs, bo: BackoffStrategy, outages: usize, id: u64) -> std::result::Result<u64, V> {
     let inc = |e: String| V("INCONCLUSIVE".into(), e);
     let topic = format!("/c12sub/top{}", id);
@@ -1197,6 +1259,17 @@ pub fn run(rep: &mut StageReport, tier: &str, _seed: u64) {
                 Err(_) => Err(V("INCONCLUSIVE".into(), "watchdog: scenario did not finish in 400 s".into())),
             };
             out.push((format!("recovery/{}", role_name), cfg, r));
+        }
+        // publisher with batching + compression across outages
+        for k in 0..(if thorough { 4u64 } else { 2 }) {
+            let bo = backoff(k as usize, 3, 10);
+            let outages = if thorough { 6 } else { 3 };
+            let cfg = json!({"role": "publisher", "batching": {"size": 4, "interval_ms": 15}, "compression": if k % 2 == 0 { "zstd" } else { "lz4" }, "outages": outages});
+            let r = match tokio::time::timeout(Duration::from_secs(400), batched_publisher_recovers(server.addr, &certs.0, bo, outages, k)).await {
+                Ok(r) => r,
+                Err(_) => Err(V("INCONCLUSIVE".into(), "watchdog: batched publisher scenario did not finish in 400 s".into())),
+            };
+            out.push(("recovery/publisher-batched".to_string(), cfg, r));
         }
         // requestor clones: concurrent calls on clones that each recovered their own stream
         for (k, (n_clones, outages)) in [(3usize, 2usize), (5, 3)].into_iter().enumerate() {
